@@ -3,7 +3,10 @@ From Coq Require Import List Arith NArith Bool.
 Import ListNotations.
 Require Import Aiuti.CaseLib Aiuti.Cache Aiuti.CacheMon Aiuti.Case_Cache.
 
-Definition ok (c : case) : bool := match c with Case n tbl tr => ok_C06 tbl tr end.
+(* C06 also says that cancelling or failing one caller never DELAYS any other caller beyond a
+   recomputation: that clause is the prompt / rescue part of the C05 monitor (sound for the model:
+   CacheMon5.ok_C05_sound_l), so both monitors judge the trace here. *)
+Definition ok (c : case) : bool := match c with Case n tbl tr => ok_C06 tbl tr && ok_C05 n tbl tr end.
 (* non-trivial: some invocation failed or was cancelled, or a caller was cancelled, or a loop
    stopped, and at least two callers were answered *)
 Definition nontrivial (c : case) : bool :=
